@@ -368,6 +368,11 @@ pub struct Tracker {
     pub shadow: Shadow,
     pub accepted_calls: u32,
     pub probes: u64,
+    /// (executors, approvers) as configured by the instantiate request and the accepted
+    /// configuration requests since -- kept independently of what the contract stored
+    pub configured_roles: Option<(Vec<String>, Vec<String>)>,
+    /// the same, as in force before the latest accepted request
+    pub roles_before_last_accepted: Option<(Vec<String>, Vec<String>)>,
 }
 
 // ---------------------------------------------------------------- judge / runner
@@ -557,6 +562,7 @@ impl Runner {
                 if out.accepted() {
                     let b = self.book();
                     if let Some(c) = &b.cfg {
+                        self.judge.tracker.configured_roles = Some((c.executors.clone(), c.approvers.clone()));
                         self.judge.tracker.market = Some((
                             c.name.clone(),
                             c.base.clone(),
@@ -711,6 +717,9 @@ impl Runner {
                 self.count(&out);
                 props::after_migrate(&mut self.judge, &world_before, &self.world, &msg, &out);
                 if out.accepted() {
+                    if let (Some((_, ap)), Some(x)) = (&mut self.judge.tracker.configured_roles, wire::CfgChange::from_value(&msg).approvers) {
+                        *ap = x;
+                    }
                     // bids converted by the migration keep their tracker entry
                     let after = self.book();
                     for id in after.bids.keys() {
@@ -750,6 +759,7 @@ impl Runner {
     ) {
         let t = &mut self.judge.tracker;
         t.accepted_calls += 1;
+        t.roles_before_last_accepted = t.configured_roles.clone();
         let (ask_ids, bid_ids) = req.named();
         let moved = !out.moves.is_empty();
         // per-order attribution of the call's fund movements
@@ -887,6 +897,14 @@ impl Runner {
                 }
             }
             Req::Modify(ch) => {
+                if let Some((ex, ap)) = &mut t.configured_roles {
+                    if let Some(x) = &ch.executors {
+                        *ex = x.clone();
+                    }
+                    if let Some(x) = &ch.approvers {
+                        *ap = x.clone();
+                    }
+                }
                 t.modifies_accepted += 1;
                 if ch.approvers.is_some() || ch.executors.is_some() {
                     t.role_changes += 1;
